@@ -9,6 +9,7 @@ import (
 	"github.com/asaskevich/EventBus"
 	"github.com/couchbase/gocbcore/v10"
 	"github.com/couchbase/gocbcore/v10/memd"
+	"github.com/gofiber/fiber/v2"
 
 	dcp "github.com/Trendyol/go-dcp"
 	"github.com/Trendyol/go-dcp/config"
@@ -55,6 +56,7 @@ type Member struct {
 	nEvents  int
 	calls    int
 	mode     string
+	app      *fiber.App
 }
 
 func (m *Member) tag(role string) string { return fmt.Sprintf("m%d%s", m.id, role) }
